@@ -270,6 +270,14 @@ def run_grid(case, R, k):
                eq_model(m.map(lambda c: c[:, None]) * mo.map(lambda c: c[None, :])), tags)
         for nm in names:
             expect(R, "derivative", lab + " d/d" + nm, lambda: numpoly.derivative(p, nm), eq_model(m.diff(nm)), tags)
+        # operands over another name tuple: the exponent columns have to be re-ordered (re-aligned) first
+        other_names = ("q1", "q3") if k == 2 else ("q1", "q3", "q4")
+        ot = [tuple(reversed(t)) for t in tp[::9]]
+        pr = build_tuples(other_names, ot, [3] * len(ot))
+        mr = tuples_model(other_names, ot, [3] * len(ot))
+        expect(R, "add other names", lab, lambda: p[:len(ot)] + pr, eq_model(m.map(lambda c: c[:len(ot)]) + mr), tags)
+        expect(R, "multiply other names", lab, lambda: p[:len(ot)] * pr, eq_model(m.map(lambda c: c[:len(ot)]) * mr), tags)
+        expect(R, "align_polynomials other names", lab, lambda: numpoly.align_polynomials(p[:len(ot)], pr)[0], eq_model(m.map(lambda c: c[:len(ot)])), tags)
         expect(R, "call(ones)", lab, lambda: p(*([1] * k)), lambda got: numpy.asarray(got).tolist() == coef or "wrong values", tags)
         expect(R, "call(partial)", lab, lambda: p(**{names[-1]: 1}), eq_model(m.subs({names[-1]: 1}).map(lambda c: c.reshape(len(tp)))), tags)
         small = [t for t in tp if max(t) <= 300]
